@@ -142,6 +142,25 @@ SEEDS = [
  ("C20-delimited-missing-soft-trailing", "C20", "DelimitedParser (allow missing): a `continue` after pushing a missing element skips `last_parsed = Delimiter`",
   "delimited_by_allow_missing on an input of delimiters only: the fatal trailing-delimiter error becomes a soft failure with the delimiters consumed",
   "run_demo.sh (delimited_missing_demo.rs integration test)"),
+ # ---- round 5: two cooperating edits
+ ("C06-float-to-integer-wraps-mod-2-32", "C06", "edit A: SINGLE/DOUBLE -> INTEGER delegates to `(round() as i64).try_cast()`; edit B: LONG -> INTEGER narrows with `as i32` before the range check",
+  "a SINGLE or DOUBLE within +-32768 of a non-zero multiple of 2^32 (or beyond 2^63) converted to INTEGER: A% = 4294967301#",
+  "run_demo.sh (demo.bas vs expected.txt); edit_a_only.diff / edit_b_only.diff are harmless alone"),
+ ("C12-mid-length-argument-unchecked", "C12", "edit 1: new lint helper require_integer_arguments(from, to) with an exclusive upper bound; edit 2: MID$'s lint calls it as (1, 2) with the inclusive reading",
+  "three-argument MID$ whose third argument is a string: MID$(t$, 8, n$)",
+  "run_demo.sh (demo.bas vs expected.txt)"),
+ ("C13-shared-compact-shadowed", "C13", "edit 1: Names helper get_shared_from_global skips the global scope when the bare name exists locally (sound for extended variables); edit 2: compact variables are routed through the same helper",
+  "a DIM SHARED compact variable used in a subprogram that already mentioned the same base name with another suffix",
+  "run_demo.sh (demo.bas vs expected.txt)"),
+ ("C16-using-format-position-kept", "C16", "edit 1: PrintState::reset no longer clears the format string / index (moved into set_format_string); edit 2: set_format_string returns early when the format is unchanged",
+  "two consecutive PRINT USING statements with equal format strings where the first leaves fields unused",
+  "run_demo.sh (demo.bas vs expected.txt)"),
+ ("C19-mkd-int-part-through-32-bit-vector", "C19", "site 1: From<i32> for BitVec becomes a macro also instantiated for (i64, 32 bits); site 2: f64_int_bits builds the integer part with BitVec::from(trunc() as i64)",
+  "MKD$ of a DOUBLE with 2^32 <= |x| < 2^63",
+  "run_demo.sh (demo.bas vs demo.expected)"),
+ ("C20-and-then-err-maps-fatal", "C20", "edit 1: MapDecorator gains an overridable map_err hook (default = old dispatch); edit 2: AndThenErrParser overrides map_err instead of map_soft_error",
+  "and_then_err around a parser that fails fatally, with a mapper that does not echo its argument",
+  "run_demo.sh (c20_and_then_err_fatal.rs integration test)"),
 ]
 
 RESULTS_FILE = os.path.join(HERE, "seeded", "results.json")
